@@ -611,6 +611,11 @@ class FactBase:
                 if old is None:
                     self.functions[k] = fn
                     self.by_name[fn.name].append(fn)
+                    if fn.raw.get("inrepo"):
+                        try:
+                            self.dealiased = getattr(self, "dealiased", 0) + dealias(fn)
+                        except Broken:
+                            pass
                 else:
                     if old.loc != fn.loc or old.raw.get("nnodes") != fn.raw.get("nnodes"):
                         self.odr_conflicts.append(("function", fn.name, u["unit"]))
@@ -1161,6 +1166,59 @@ def current_definition(fn, ref):
         if wb == ub and db != ub and wp < cfg.pos_of[x["id"]]:
             return None
     return init
+
+
+_SCALAR_KINDS = ("int", "bool", "enum", "ptr")
+
+
+def dealias(fn):
+    """Normalisation: a use of a local that is a plain copy of another scalar local or parameter (`const size_t left = static_cast<size_t>(cur);`)
+    is rewritten, in place, into a conversion of the original — wherever that copy still equals the original at the use (nothing the
+    initialiser reads is assigned on any path from the definition to the use: current_definition).  The rules then see the code as if
+    the copy had never been introduced.  Returns the number of uses rewritten."""
+    if not fn.body or not fn.cfg_raw:
+        return 0
+    cands = {}
+    ndefs = {}
+    for n in fn.nodes():
+        if n.get("k") == "decl":
+            for v in n.get("vars", []):
+                init, t = v.get("init"), (v.get("t") or {})
+                if not isinstance(init, dict) or t.get("ref") or t.get("k") not in _SCALAR_KINDS or v.get("static"):
+                    continue
+                r = strip_all_casts(init)
+                if r.get("k") == "ref" and r.get("dk") in ("local", "param") and (r.get("t") or {}).get("k") in _SCALAR_KINDS and \
+                        not (r.get("t") or {}).get("ref") and r.get("decl") != v["decl"]:
+                    cands[v["decl"]] = (v, r)
+    if not cands:
+        return 0
+    defs = local_defs(fn)
+    cands = {d: vr for d, vr in cands.items() if len(defs.get(d, [])) == 1}
+    if not cands:
+        return 0
+    addr = {lvalue_root(x["e"]) for x in fn.nodes() if x.get("k") == "un" and x.get("op") == "&"}
+    uses = [x for x in fn.nodes() if x.get("k") == "ref" and x.get("decl") in cands]
+    n = 0
+    for x in uses:
+        v, r = cands[x["decl"]]
+        if v["decl"] in addr or r["decl"] in addr:
+            continue
+        if current_definition(fn, x) is None:
+            continue
+        newref = dict(r)
+        newref["id"] = -(10 ** 7) - x["id"]
+        old = dict(x)
+        x.clear()
+        x.update({"k": "cast", "id": old["id"], "t": v["t"], "e": newref, "ck": "alias-of-local"})
+        if old.get("loc"):
+            x["loc"] = old["loc"]
+        n += 1
+    if n:
+        fn._nodes = None
+        fn._parent = None
+        if hasattr(fn, "_local_defs_cache"):
+            del fn._local_defs_cache
+    return n
 
 
 def inline_accessor(fb, call):
